@@ -528,6 +528,50 @@ impl RuleFamily for Names {
     }
 }
 
+
+/// Inherited operations, complete small scope: every inheritance DAG over four interfaces that pairwise share their
+/// simple names across two modules, with every assignment of operations to interfaces.
+pub struct InheritedOperations;
+impl InheritedOperations {
+    const NAMINGS: [[(&'static str, &'static str); 4]; 2] = [[("M1", "P"), ("M1", "Q"), ("M2", "P"), ("M2", "Q")], [("M1", "P"), ("M2", "P"), ("M2", "Q"), ("M1", "Q")]];
+}
+impl RuleFamily for InheritedOperations {
+    fn name(&self) -> String {
+        "inherited-operations/all 64 inheritance DAGs over 4 interfaces M1::P M1::Q M2::P M2::Q (like-named across two modules and files) x every subset of operations {a, b} per interface x 2 assignments of names to nodes x definitions in forward / backward order".into()
+    }
+    fn len(&self) -> u64 {
+        64 * 256 * 2 * 2
+    }
+    fn get(&self, idx: u64) -> (Program, String) {
+        let d = decode_index(idx, &[64, 256, 2, 2]);
+        let (graph, ops, naming, backward) = (d[0], d[1], d[2] as usize, d[3] == 1);
+        let names = Self::NAMINGS[naming];
+        // node i may derive from every node j < i: bit (i * (i - 1) / 2 + j) of `graph`
+        let mut files = vec![MFile::module("M1"), MFile::module("M2")];
+        let mut order: Vec<usize> = (0..4).collect();
+        if backward {
+            order.reverse();
+        }
+        for i in order {
+            let mut bases = vec![];
+            for j in 0..i {
+                if (graph >> (i * (i - 1) / 2 + j)) & 1 == 1 {
+                    bases.push(MType::named(&format!("{}::{}", names[j].0, names[j].1)));
+                }
+            }
+            let mut os = vec![];
+            for (k, o) in ["a", "b"].iter().enumerate() {
+                if (ops >> (2 * i + k)) & 1 == 1 {
+                    os.push(op(o, vec![], MRet::None));
+                }
+            }
+            let fi = if names[i].0 == "M1" { 0 } else { 1 };
+            files[fi].defs.push(iface(names[i].1, bases, os));
+        }
+        (files, format!("graph {graph:#08b} operations {ops:#010b} naming {naming} backward {backward}"))
+    }
+}
+
 /// Known attributes x targets x argument lists.
 pub struct Attributes {
     forms: Vec<MAttr>,
@@ -901,7 +945,7 @@ impl RuleFamily for AttributeOnContainerAndMember {
 }
 
 pub fn families(tier: &str) -> Vec<Box<dyn Family>> {
-    let mut v: Vec<Box<dyn RuleFamily>> = vec![Box::new(Names), Box::new(Streams), Box::new(Literals), Box::new(EnumBounds), Box::new(Keys::new()), Box::new(Attributes::new()), Box::new(AttributeOnContainerAndMember::new()), Box::new(Tags), Box::new(Pairs { depth: 2 })];
+    let mut v: Vec<Box<dyn RuleFamily>> = vec![Box::new(Names), Box::new(Streams), Box::new(Literals), Box::new(EnumBounds), Box::new(Keys::new()), Box::new(Attributes::new()), Box::new(AttributeOnContainerAndMember::new()), Box::new(Tags), Box::new(Pairs { depth: 2 }), Box::new(InheritedOperations)];
     if tier != "quick" {
         v.push(Box::new(Pairs { depth: 3 }));
     }
